@@ -59,7 +59,8 @@ def main():
         shutil.rmtree(scratch, ignore_errors=True)
     dst = os.path.join("/verif/seeded/benign", name)
     os.makedirs(dst, exist_ok=True)
-    shutil.copy(diff, os.path.join(dst, "change.diff"))
+    if os.path.abspath(diff) != os.path.join(dst, "change.diff"):
+        shutil.copy(diff, os.path.join(dst, "change.diff"))
     meta = {}
     mj = diff[:-5] + ".json"
     if os.path.exists(mj):
@@ -67,8 +68,20 @@ def main():
             meta = json.load(open(mj))
         except Exception:
             pass
-    meta["checks"] = results
-    meta["all_exit_0"] = all(r["exit"] == 0 for r in results.values())
+    # a re-run of some of the checks replaces their entries and keeps the others (older runs of the same change)
+    old = {}
+    prev = os.path.join(dst, "meta.json")
+    if os.path.exists(prev):
+        try:
+            pm = json.load(open(prev))
+            old = pm.get("checks", {})
+            for k, v in pm.items():
+                meta.setdefault(k, v)
+        except Exception:
+            pass
+    old.update(results)
+    meta["checks"] = dict(sorted(old.items()))
+    meta["all_exit_0"] = all(r["exit"] == 0 for r in meta["checks"].values())
     json.dump(meta, open(os.path.join(dst, "meta.json"), "w"), indent=1)
     bad = [p for p, r in results.items() if r["exit"] != 0]
     print("QUIET" if not bad else "ALARM %s" % bad, name)
